@@ -7,6 +7,8 @@ CONSTANTS
   MaxEmit = 2
   MaxSreq = 0
   MaxSa = 0
+  MaxBc = 0
+  DupOf <- NoDup
   Gates = FALSE
 VIEW MCView
 CHECK_DEADLOCK FALSE
